@@ -6,10 +6,15 @@ use fnv::FnvHashMap;
 use std::{
     collections::hash_map,
     task::{Context, Poll},
+    time::Duration,
 };
 use tokio::sync::oneshot;
 use tokio_util::time::delay_queue::{self, DelayQueue};
 use tracing::Span;
+
+/// The longest timeout handed to the timer queue, which panics on timeouts beyond its range (about
+/// 2.2 years). Deadlines further away than this are enforced after this long.
+const MAX_TIMEOUT: Duration = Duration::from_secs(60 * 60 * 24 * 365);
 
 /// Requests already written to the wire that haven't yet received responses.
 #[derive(Debug)]
@@ -68,7 +73,7 @@ impl<Res> InFlightRequests<Res> {
     ) -> Result<(), AlreadyExistsError> {
         match self.request_data.entry(request_id) {
             hash_map::Entry::Vacant(vacant) => {
-                let timeout = ctx.deadline.time_until();
+                let timeout = ctx.deadline.time_until().min(MAX_TIMEOUT);
                 let deadline_key = self.deadlines.insert(request_id, timeout);
                 vacant.insert(RequestData {
                     ctx,
